@@ -299,7 +299,7 @@ main (int argc, char **argv)
               int cheap = !(m == M_SUNMD5 || m == M_YESCRYPT || m == M_GOST || m == M_SCRYPT || (m == M_SHA1 && counts[m][ci].c > 20000));
               int nsel = nrb == 2 || nrb == 3 || nrb == 8 || nrb == 9 || nrb == 15 || nrb == 16 || nrb == 17 || nrb == 24 || nrb == 32
                 || nrb == 63 || nrb == 64 || nrb == 65 || nrb == 70 || nrb == 256;
-              int few = nrb == 16 || nrb == 64;
+              int few = nrb == 16 || nrb == 64 || nrb == 65 || nrb == 256;
               int tag_only = pi <= M_COUNT;       /* tags and NULL; full hashes/settings add nothing to the hashing sub-grid */
               int dh = budget && f == 0 && (cheap ? (vh_thorough ? 1 : nsel) : (vh_thorough ? nsel : few)) && (tag_only || few);
               if (!cheap && !vh_thorough && counts[m][ci].c > 5 && m != M_SCRYPT)
